@@ -214,17 +214,55 @@ theorem entry {α} (k : P α) {Q : α → PState → Prop} (hk : T src Tr k Q) (
 section
 variable {r : Tbl} [hr : TblOK src r]
 
-theorem parseFile_imports_spec : ∀ fuel acc, T src Tr (parseFile.imports fuel acc) (fun _ _ => True) := by
+theorem parseFile_imports_spec : ∀ fuel acc, (∀ i ∈ acc, RealImport src i) →
+    T src Tr (parseFile.imports fuel acc) (fun l _ => ∀ i ∈ l, RealImport src i) := by
   intro fuel
   induction fuel with
-  | zero => intro acc; unfold parseFile.imports; exact T.throw _ (fun _ _ => trivial)
-  | succ n ih => intro acc; unfold parseFile.imports; hloop ih
+  | zero => intro acc _; unfold parseFile.imports; exact T.throw _ (fun _ _ => trivial)
+  | succ n ih =>
+    intro acc hacc
+    unfold parseFile.imports
+    refine T.bind (currentIs_spec _) (fun b => ?_)
+    refine T.ite (fun _ => ?_) (fun _ => T.pure _ (fun _ _ => hacc))
+    refine T.bindP (T.anyQ parseImportDecl_spec) ⟨fun is his => ?_⟩
+    refine T.bind (T.anyQ (skipped_spec _)) (fun _ => ?_)
+    refine T.anyQ (ih _ ?_)
+    intro x hx
+    simp only [List.mem_append] at hx
+    rcases hx with hx | hx
+    · exact hacc x hx
+    · exact his x hx
 
-theorem parseFile_decls_spec : ∀ fuel acc, T src Tr (parseFile.decls r fuel acc) (fun _ _ => True) := by
+/-- what is carried to the tree for a top-level declaration: declared names are identifier tokens of the
+    source, documentation is made of comment tokens of the source -/
+def DeclReal (src : Array Char) : Declaration → Prop
+  | .Function d => FuncDeclReal src d
+  | .Type d => DeclTypeReal src d
+  | .Const d => DeclConstReal src d
+  | .Variable d => DeclVarReal src d
+
+theorem parseFile_decls_spec : ∀ fuel acc, (∀ d ∈ acc, DeclReal src d) →
+    T src Tr (parseFile.decls r fuel acc) (fun l _ => ∀ d ∈ l, DeclReal src d) := by
   intro fuel
   induction fuel with
-  | zero => intro acc; unfold parseFile.decls; exact T.throw _ (fun _ _ => trivial)
-  | succ n ih => intro acc; unfold parseFile.decls; hloop ih
+  | zero => intro acc _; unfold parseFile.decls; exact T.throw _ (fun _ _ => trivial)
+  | succ n ih =>
+    intro acc hacc
+    have hstep : ∀ d, DeclReal src d → ∀ x ∈ acc ++ [d], DeclReal src x := by
+      intro d hd x hx
+      simp only [List.mem_append, List.mem_singleton] at hx
+      rcases hx with hx | rfl
+      · exact hacc x hx
+      · exact hd
+    unfold parseFile.decls
+    refine T.bind current_spec (fun c => ?_)
+    split
+    · exact T.pure _ (fun _ _ => hacc)
+    · exact T.bindP (T.anyQ TblOK.parseFuncDecl) ⟨fun d hd => T.anyQ (ih _ (hstep _ hd))⟩
+    · exact T.bindP (T.anyQ TblOK.parseDeclVar) ⟨fun d hd => T.anyQ (ih _ (hstep _ hd))⟩
+    · exact T.bindP (T.anyQ TblOK.parseDeclType) ⟨fun d hd => T.anyQ (ih _ (hstep _ hd))⟩
+    · exact T.bindP (T.anyQ TblOK.parseDeclConst) ⟨fun d hd => T.anyQ (ih _ (hstep _ hd))⟩
+    · hoare
 
 /-- the comment list as `File::comments` lists it: strictly increasing offsets, so every comment at most
     once and in source order -/
@@ -257,14 +295,16 @@ theorem parseFile_eq (r : Tbl) : parseFile r = (do
     parseFileRest r) := rfl
 
 theorem parseFileTail_spec (docs : List Comment) (pkgName : Ident) (imps : List Import) (ds : List Declaration)
-    (hpkg : RealIdent src pkgName) (hdocs : ∀ c ∈ docs, RealComment src c) :
+    (hpkg : RealIdent src pkgName) (hdocs : ∀ c ∈ docs, RealComment src c)
+    (himps : ∀ i ∈ imps, RealImport src i) (hds : ∀ d ∈ ds, DeclReal src d) :
     T src Tr (parseFileTail docs pkgName imps ds)
       (fun f _ => CommentsSorted f ∧ CommentsReal src f ∧ RealIdent src f.pkg_name ∧
-        ∀ c ∈ f.docs, RealComment src c) := by
+        (∀ c ∈ f.docs, RealComment src c) ∧ (∀ i ∈ f.imports, RealImport src i) ∧
+        ∀ d ∈ f.decl, DeclReal src d) := by
   unfold parseFileTail
   refine T.bind T.getInv (fun st => ?_)
   refine T.extract (p := Inv src st) (fun s h => by rw [h.1]; exact h.2.1) (fun hinv => ?_)
-  refine T.bind (Q1 := fun _ _ => True) ?_ (fun _ => T.pure _ (fun _ _ => ⟨hinv.sorted, hinv.real, hpkg, hdocs⟩))
+  refine T.bind (Q1 := fun _ _ => True) ?_ (fun _ => T.pure _ (fun _ _ => ⟨hinv.sorted, hinv.real, hpkg, hdocs, himps, hds⟩))
   refine T.set _ ?_
   intro s hi hr
   obtain ⟨rfl, _⟩ := hr
@@ -272,12 +312,17 @@ theorem parseFileTail_spec (docs : List Comment) (pkgName : Ident) (imps : List 
 
 theorem parseFileRest_spec : T src Tr (parseFileRest r)
     (fun f _ => CommentsSorted f ∧ CommentsReal src f ∧ RealIdent src f.pkg_name ∧
-      ∀ c ∈ f.docs, RealComment src c) := by
+      (∀ c ∈ f.docs, RealComment src c) ∧ (∀ i ∈ f.imports, RealImport src i) ∧
+      ∀ d ∈ f.decl, DeclReal src d) := by
   unfold parseFileRest
   refine T.bindP drainComments_spec ⟨fun docs hdocs => ?_⟩
   refine T.bindP (T.anyQ parsePackage_spec) ⟨fun pkgName hpkg => ?_⟩
-  hoare
-  all_goals first | exact T.anyQ (parseFileTail_spec _ _ _ _ hpkg hdocs) | exact hpkg | exact hdocs | skip
+  refine T.bind (T.anyQ (skipped_spec _)) (fun _ => ?_)
+  refine T.bind loopFuel_spec (fun fuel => ?_)
+  refine T.bindP (T.anyQ (parseFile_imports_spec _ _ (by intro _ h; cases h))) ⟨fun imps himps => ?_⟩
+  refine T.bind loopFuel_spec (fun fuel2 => ?_)
+  refine T.bindP (T.anyQ (parseFile_decls_spec _ _ (by intro _ h; cases h))) ⟨fun ds hds => ?_⟩
+  exact T.anyQ (parseFileTail_spec _ _ _ _ hpkg hdocs himps hds)
 
 end
 
@@ -356,7 +401,32 @@ theorem parseFile_docs_real (text : String) (profile : Profile) (n : Nat) (f : F
   have := entry (src := text.toList.toArray) (parseFileRest (tbl n)) hk (initState text profile)
     (initState_inv0 text profile) rfl
   rw [← parseFile_eq, h] at this
-  exact this.2.2.2.2
+  exact this.2.2.2.2.1
+
+/-- **C06 (imports), whole parser: import paths and names are the source's.**  Whenever `parse_file` accepts
+    a text, every import of the returned file has as path a string-literal token of that text at its offset,
+    and as name (if any) an identifier token or the `.` token at its offset -/
+theorem parseFile_imports_real (text : String) (profile : Profile) (n : Nat) (f : File) (s' : PState)
+    (h : parseFile (tbl n) (initState text profile) = (.ok f, s')) :
+    ∀ i ∈ f.imports, RealImport text.toList.toArray i := by
+  have hk := @parseFileRest_spec text.toList.toArray (tbl n) (tblOK n)
+  have := entry (src := text.toList.toArray) (parseFileRest (tbl n)) hk (initState text profile)
+    (initState_inv0 text profile) rfl
+  rw [← parseFile_eq, h] at this
+  exact this.2.2.2.2.2.1
+
+/-- **C06 / C12 (top-level declarations), whole parser.**  Whenever `parse_file` accepts a text: the name of
+    every top-level function or method, the name of every type spec and every name of every var and const spec
+    of the returned file is an identifier token of that text at its offset; and the documentation of every
+    declaration and of every spec consists of comment tokens of that text -/
+theorem parseFile_decls_real (text : String) (profile : Profile) (n : Nat) (f : File) (s' : PState)
+    (h : parseFile (tbl n) (initState text profile) = (.ok f, s')) :
+    ∀ d ∈ f.decl, DeclReal text.toList.toArray d := by
+  have hk := @parseFileRest_spec text.toList.toArray (tbl n) (tblOK n)
+  have := entry (src := text.toList.toArray) (parseFileRest (tbl n)) hk (initState text profile)
+    (initState_inv0 text profile) rfl
+  rw [← parseFile_eq, h] at this
+  exact this.2.2.2.2.2.2
 
 /-- what `RealComment` means in terms of the text alone: the entry's text is found verbatim in the source
     at the entry's offset, and it is not empty -/
